@@ -23,7 +23,9 @@ _ctx = {}
 def setup(prop, repo):
     """Boot the world process: patch, import sempler from `repo` (never runs an op here)."""
     import warnings
-    warnings.simplefilter("ignore")        # numpy / pandas warnings of the system under test are not verdicts
+    # warnings of the system under test are not verdicts and are not printed; the FILTERS stay as Python sets them
+    # up (a global "ignore" would hide behaviour of the library that depends on a warning being emitted)
+    warnings.showwarning = lambda *a, **k: None
     S = boot.boot(repo, with_peer=(prop == "C19"))
     mod = importlib.import_module(MODS[prop])
     _ctx.update(prop=prop, S=S, mod=mod, repo=repo)
@@ -38,8 +40,6 @@ def _child_run(run_seed, ops, opts):
     cfg = None
     # simulated time, from the run seed; in a third of the runs the clock stands still (all calls within "one second")
     boot.install_clock(1.7e9 + (run_seed % 100000) * 86400.0, frozen=(run_seed // 7) % 3 == 0)
-    import warnings
-    warnings.simplefilter("ignore")
     opts = dict(opts)
     want_ops = opts.pop("_want_ops", False)
     deep = opts.pop("deep", False)
